@@ -5,7 +5,7 @@ import core, layout, store_common as sc
 from core import Broken
 
 ID = 'C14'
-GENMODS = ['gen_store']
+GENMODS = ['gen_store', 'gen_glue']
 TARGET = 'props/C14.vo'
 PROOF_FILES = ['proof/C14.v', 'proof/IniProofs.v', 'proof/IniFile.v', 'proof/IniFile2.v', 'proof/StoreText.v', 'proof/C14Label.v', 'props/C14.v']
 AXIOMS = []
